@@ -266,7 +266,10 @@ func runShutdownSchedule(acts []string) (obs string, viol []string) {
 	case <-time.After(5 * time.Second):
 		viol = append(viol, "Serve did not return after Shutdown")
 	}
-	if r.sdResult == nil {
+	r.mu.Lock()
+	pending := r.sdResult == nil
+	r.mu.Unlock()
+	if pending {
 		select {
 		case <-r.sdRet:
 		case <-time.After(5 * time.Second):
